@@ -55,6 +55,9 @@ type c03Expect struct {
 	Rows2    []any      `json:"rows2,omitempty"` // expected result of a second Exec when it differs (WHERE reads a variable the query writes)
 	Len2     [][]string `json:"lenient2,omitempty"`
 	HasRows2 bool       `json:"has_rows2,omitempty"`
+	// FirstFails: the first Exec is meant to fail part-way through its select list (a value no aggregate can add up in a
+	// row that passes WHERE then); only the second Exec - after the caller moved the variable - is compared
+	FirstFails bool `json:"first_fails,omitempty"`
 	Wrap     string     `json:"wrap,omitempty"`      // "" | derived | cte: the grouped query sits in a derived table / CTE
 	Dims     []int      `json:"dims,omitempty"`      // wrap dims (FROM d.items over [[rows], NULL, [rows]]): number of expected rows per inner table
 	OverJoin bool       `json:"over_join,omitempty"` // the grouped rows come from a join: only run-to-run identity is decided
@@ -389,6 +392,25 @@ func genC03WhereVar(t *rapid.T) *Bundle {
 		// the whole-table form: the caller changes the variable between the two Execs
 		mkw := func(k float64) *c03Expect {
 			return &c03Expect{Aggs: []c03Agg{{Fn: "count", Alias: "r0"}, {Fn: "sum", Col: "y", Alias: "r1"}, {Fn: "max", Col: "z", Alias: "r2"}}, Where: &c03Pred{Col: "y", Op: ">", K: k}}
+		}
+		if rapid.IntRange(0, 2).Draw(t, "first_fails") == 0 {
+			// the first Exec fails after some aggregates have been computed: a row that passes WHERE at first (y = 2 > lim)
+			// holds a text in the column the last aggregate adds up; the caller then raises lim past it and tries again
+			k1 = float64(rapid.IntRange(-1, 1).Draw(t, "ff_lim1"))
+			k2 = float64(rapid.IntRange(2, 3).Draw(t, "ff_lim2"))
+			bad := map[string]any{"g1": "a", "g3": "u", "y": 2.0, "z": "n/a", "x": nil, "o": map[string]any{"p": 1.0}}
+			at := rapid.IntRange(0, len(table)).Draw(t, "ff_at")
+			table = append(table[:at], append([]any{bad}, table[at:]...)...)
+			mkf := func(k float64) *c03Expect {
+				return &c03Expect{Aggs: []c03Agg{{Fn: "count", Alias: "r0"}, {Fn: "sum", Col: "y", Alias: "r1"}, {Fn: "max", Col: "y", Alias: "r2"}, {Fn: "sum", Col: "z", Alias: "r3"}}, Where: &c03Pred{Col: "y", Op: ">", K: k}}
+			}
+			e := mkf(k2)
+			e.Query = "SELECT COUNT(*) AS r0, SUM(y) AS r1, MAX(y) AS r2, SUM(z) AS r3 FROM t WHERE y > GETVAR('lim')"
+			e.Rows2, e.Len2, _ = referenceGroupBy(mkf(k2), table)
+			e.HasRows2, e.FirstFails = true, true
+			c := oneClientCase("C03", casefmt.SimConfig{Strategy: "np", MapPolicy: "sorted"}, map[string]any{"t": table}, casefmt.Op{Doc: 0, Vars: 0, Query: e.Query, ExecTwice: true, VarsBetween: map[string]any{"lim": k2}})
+			c.Vars = []map[string]any{{"lim": k1}}
+			return &Bundle{Prop: "C03", Kind: "where_var", Case: c, Expect: mustJSON(e), Tags: []string{"where_var", "whole_table", "first_exec_fails"}}
 		}
 		e := mkw(k1)
 		e.Query = "SELECT COUNT(*) AS r0, SUM(y) AS r1, MAX(z) AS r2 FROM t WHERE y > GETVAR('lim')"
@@ -728,6 +750,27 @@ func evalC03(b *Bundle, r *Runner) []*Violation {
 			return hv
 		}
 		op := &o.Ops[len(o.Ops)-1]
+		if e.FirstFails {
+			// (whether the first Exec reports its failure is C19's business; what this check holds the engine to is that the
+			// aggregates of the second Exec are computed over the rows that pass WHERE then)
+			if failed(op) {
+				r.Stats.probe("first_exec_failed_as_planned")
+			}
+			got2, ok2 := asArray(normJSON(op.Rows2))
+			bad2 := op.Exec2 != "ok" || !ok2 || len(got2) != len(e.Rows2)
+			for i := 0; !bad2 && i < len(got2); i++ {
+				var open []string
+				if i < len(e.Len2) {
+					open = e.Len2[i]
+				}
+				bad2 = !c03RowEqual(got2[i], e.Rows2[i], open)
+			}
+			if bad2 {
+				return []*Violation{mkViolation(b, "WHOLE_TABLE_AGGREGATE", "second_exec_after_failed_first", fmt.Sprintf("%s\n on t=%s\n the first Exec: %s%s; the caller then set lim and called Exec again\n reference %s\n engine    %s %s", e.Query, docTable(b, "t"), op.NewErr, op.ExecErr, canonText(e.Rows2), op.Exec2, compact(op.Rows2)), o)}
+			}
+			r.Stats.probe("second_exec_after_failed_first")
+			continue
+		}
 		if failed(op) {
 			return []*Violation{mkViolation(b, "GROUP_QUERY_FAILED", "", fmt.Sprintf("%s\n failed: %s%s", e.Query, op.NewErr, op.ExecErr), o)}
 		}
